@@ -27,6 +27,8 @@
 (*   "D06b" the label of a target namespace is made unique among the target *)
 (*          namespaces only, not among all namespaces of the document       *)
 (*   "D07"  on a merge the imported prefix table overwrites the importer's  *)
+(*   "D38"  a prefix that is in the table is never bound anew: a component  *)
+(*          that declares it for another namespace (XML scoping) is ignored *)
 (***************************************************************************)
 EXTENDS Naturals, Sequences, FiniteSets, TLC
 
@@ -47,25 +49,36 @@ LookupOf(d, p) == d.lookup[CHOOSE i \in 1..Len(d.lookup) : d.lookup[i][1] = p][2
 Known(list, u) == \E x \in ZRange(list) : x.uri = u
 Get(list, u) == list[CHOOSE i \in 1..Len(list) : list[i].uri = u /\ \A j \in 1..(i - 1) : list[j].uri # u]
 
-\* add_namespace_reference(prefix, uri): outcome and new document
-AddRefOutcome(d, p, u, wk) ==
+\* add_namespace_reference(prefix, uri): outcome and new document.
+\* collect_namespaces_on_node hands in every binding that is IN SCOPE where a component stands, so a prefix that the
+\* table binds to another namespace (a declaration on a component of this or of an imported file) is bound anew:
+\* the nearest declaration counts.  "D38" (as built): a prefix that is in the table is never touched again.
+RebindOf(D) == "D38" \notin D
+AddRefOutcomeD(d, p, u, wk, D) ==
   IF p = "" \/ u = "" THEN "empty"
   ELSE IF wk THEN "well_known"
-  ELSE IF HasPrefix(d, p) THEN "prefix_taken"
+  ELSE IF HasPrefix(d, p) /\ (~RebindOf(D) \/ LookupOf(d, p).uri = u) THEN "prefix_taken"
   ELSE IF Known(d.nss, u) THEN "alias"
   ELSE "new"
-AddRef(d, p, u, base, wk) ==
-  LET o == AddRefOutcome(d, p, u, wk) IN
+Without(lk, p) == SelectSeq(lk, LAMBDA e : e[1] # p)
+AddRefD(d, p, u, base, wk, D) ==
+  LET o == AddRefOutcomeD(d, p, u, wk, D) IN
   IF o \in {"empty", "well_known", "prefix_taken"} THEN d
-  ELSE IF o = "alias" THEN [d EXCEPT !.lookup = Append(@, <<p, Get(d.nss, u)>>)]
+  ELSE IF o = "alias" THEN [d EXCEPT !.lookup = Append(Without(@, p), <<p, Get(d.nss, u)>>)]
   ELSE LET ns == Ns(u, base, FreeN(base, d.nss))
-       IN [d EXCEPT !.lookup = Append(@, <<p, ns>>), !.nss = Append(@, ns)]
+       IN [d EXCEPT !.lookup = Append(Without(@, p), <<p, ns>>), !.nss = Append(@, ns)]
 \* the record the prefix is bound to afterwards (for comparing with the hook's `abbr`)
-AddRefNs(d, p, u, base, wk) ==
-  LET o == AddRefOutcome(d, p, u, wk) IN
+AddRefNsD(d, p, u, base, wk, D) ==
+  LET o == AddRefOutcomeD(d, p, u, wk, D) IN
   IF o \in {"empty", "well_known"} THEN None
   ELSE IF o = "prefix_taken" THEN LookupOf(d, p)
-  ELSE LookupOf(AddRef(d, p, u, base, wk), p)
+  ELSE LookupOf(AddRefD(d, p, u, base, wk, D), p)
+AddRefOutcome(d, p, u, wk) == AddRefOutcomeD(d, p, u, wk, {})
+AddRef(d, p, u, base, wk) == AddRefD(d, p, u, base, wk, {})
+AddRefNs(d, p, u, base, wk) == AddRefNsD(d, p, u, base, wk, {})
+\* (C09) a prefixed name used where component-level declarations are in scope resolves through the table as it
+\* stands after those declarations have been handed in
+ResolvesTo(d, p) == IF HasPrefix(d, p) THEN LookupOf(d, p).uri ELSE "?"
 
 SwitchOutcome(d, u) == IF Known(d.tns, u) THEN "already" ELSE IF Known(d.nss, u) THEN "reuse" ELSE "new"
 SwitchTns(d, u, base, D) ==
